@@ -8,11 +8,11 @@ import pure
 def run(ctx):
     thorough = ctx.tier == "thorough"
     ctx.mc("MC_Transcript", cfg(constants={"WIDTH": "1", "PWMAX": "2" if thorough else "1"},
-                                invariants=["BindsEveryField", "SymmetricOrderFree", "SymmetricBinds", "Layout"]),
+                                invariants=["BindsEveryField", "SymmetricOrderFree", "SymmetricBinds", "SymmetricAnyLength", "Layout"]),
            label="MC_Transcript[width 1]", timeout=7200)
     if thorough:
         ctx.mc("MC_Transcript", cfg(constants={"WIDTH": "2", "PWMAX": "1"},
-                                    invariants=["BindsEveryField", "SymmetricOrderFree", "SymmetricBinds", "Layout"]),
+                                    invariants=["BindsEveryField", "SymmetricOrderFree", "SymmetricBinds", "SymmetricAnyLength", "Layout"]),
                label="MC_Transcript[width 2]", timeout=7200)
     uni = Universe()
     traces = []
@@ -28,6 +28,17 @@ def run(ctx):
             t.raw(pure.ev_finalize_sym(a, X, Y, K, pw))
         traces.append(t.to_json())
     ctx.cov["finalize_tuples"] = 2 * len(tuples)
+    # symmetric form on messages of DIFFERENT lengths, prefixes of one another, leading zeros, equal messages, empty:
+    # min/max is Python's ordering of byte strings, not numeric value, not length
+    odd = [b"", b"\x00", b"\x01", b"\x02", b"\x00\x01", b"\x01\x00", b"\x00\x00", b"ab", b"abc", b"b", b"\xff", b"\x00\xff", b"\xff\x00",
+           b"a" * 32, b"a" * 33, b"a" * 31 + b"b", b"\x00" + b"a" * 32, b"\x7f", b"\x80"]
+    t = Trace("finalize-sym-lengths", uni)
+    for m1 in odd:
+        for m2 in odd:
+            t.raw(pure.ev_finalize_sym(b"s", m1, m2, b"K", b"pw"))
+    for m1, m2 in [(b"X", b"YY"), (b"", b"Y"), (b"\x02", b"\x01\x00")]:
+        t.raw(pure.ev_finalize(b"a", b"b", m1, m2, b"", b""))
+    traces.append(t.to_json())
     # realistic sizes: 32/128/256/384-byte messages, long and binary ids/passwords, prefix/suffix relations
     rb = lambda n: bytes(ctx.rng.randrange(256) for _ in range(n))
     t = Trace("finalize-real", uni)
